@@ -83,6 +83,33 @@ def check_defaults(fn, qual, rel):
             T.fail(rel, d, "%s has the default argument `%s`: only None / immutable constants are modelled" % (qual, ast.unparse(d)))
 
 
+NOISE_CALLS = ("warnings.warn", "print", "logging.", "logger.", "log.")
+
+
+def strip_noise(fn):
+    """a copy of the function without statements that only talk (warnings.warn(..), print(..), logging calls, the import
+    of `warnings`): warnings, log lines and stderr output never matter to the property"""
+    import copy
+    fn = copy.deepcopy(fn)
+
+    def noisy(st):
+        if isinstance(st, ast.Expr) and isinstance(st.value, ast.Call):
+            d = T.dotted(st.value.func) or ""
+            return any(d == n or (n.endswith(".") and d.startswith(n)) for n in NOISE_CALLS)
+        if isinstance(st, ast.Import):
+            return all(a.name in ("warnings", "logging") for a in st.names)
+        return False
+
+    for node in ast.walk(fn):
+        for fld in ("body", "orelse", "finalbody"):
+            b = getattr(node, fld, None)
+            if isinstance(b, list) and b and all(isinstance(x, ast.stmt) for x in b):
+                kept = [x for x in b if not noisy(x)]
+                if len(kept) != len(b):
+                    setattr(node, fld, kept or ([ast.Pass()] if fld == "body" else []))
+    return fn
+
+
 def fdef(tree, qual, rel):
     """find_def + mapping renamed locals back to the names the shape matchers are written with"""
     import copy
@@ -91,6 +118,7 @@ def fdef(tree, qual, rel):
         T.fail(rel, fn, "%s carries decorator(s) %s (memoisation / wrapping of an anchored function is not modelled)"
                % (qual, [ast.unparse(d) for d in fn.decorator_list]))
     check_defaults(fn, qual, rel)
+    fn = strip_noise(fn)
     orig = ORIG_LOCALS.get(qual)
     cur = bound_names(fn)
     if orig is None or cur == orig:
